@@ -106,17 +106,16 @@ def Buf.toRawVector (b : Buf) : M (List Nat) := (List.range b.readEnd).mapM (rea
 
 /-- `fcppt::io::read_chars(stream, count)`:
 `read_from_opt(count, λ (data, size). make_if(stream.read(data, size).good(), gcount))` then `to_raw_vector` -/
-def readChars (s : IStream) (count : Nat) : M (IStream × Option (List Nat)) := do
+def readChars (s : IStream) (count : Nat) : M (IStream × Option (List Nat)) :=
   -- append_from_opt(Buffer{0U}, count, f): resize_write_area(count); f(write_data(), count)
   let b := Buf.empty.resizeWriteArea count
-  let (s, stored, gcount) := s.read count
-  let cells ← writeCells b.cells b.readEnd stored       -- istream::read writes through `data`
-  if s.good then
-    -- _buffer.written(gcount): read_end_ += gcount
-    let b : Buf := { b with cells := cells, readEnd := b.readEnd + gcount }
-    let v ← b.toRawVector
-    pure (s, some v)
-  else pure (s, none)
+  -- stream.read(data, size): (stream afterwards, characters stored through `data`, gcount)
+  let r := s.read count
+  (writeCells b.cells b.readEnd r.2.1).bind fun cells =>
+    if r.1.good then
+      -- _buffer.written(gcount): read_end_ += gcount;  to_raw_vector(std::move(buffer))
+      (Buf.toRawVector { b with cells := cells, readEnd := b.readEnd + r.2.2 }).bind fun v => pure (r.1, some v)
+    else pure (r.1, none)
 
 /-! ## stream_to_string -/
 
